@@ -716,7 +716,7 @@ def ssa_valid_py(n, path):
 
 # ===========================================================================
 def run(ctx):
-    if not standard_proof_steps(ctx, targets=["Model/Processor.vo", "Proofs/ProcessorFacts.vo"]):
+    if not standard_proof_steps(ctx, targets=["Model/Processor.vo"]):
         return
     rng = ctx.rng
     pool = Pool(int(os.environ.get("C05_PROCS", "14")), TIMEOUT)
@@ -1071,8 +1071,11 @@ def judge_processor(ctx, J, what, rec, net, o):
         J.model("simplify + optimize_greedy(costmod=1, temperature=0): ssa_path",
                 "cp_path (cp_greedy (cp_simplify %s %s))" % (ords, cp), path_lit(o["greedy_ssa"]),
                 dict(rec, impl=o["greedy_ssa"], orders=o["orders"]))
-        J.model("simplify + greedy + optimize_remaining_by_size: ssa_path",
-                "cp_path (cp_remaining (cp_greedy (cp_simplify %s %s)))" % (ords, cp), path_lit(o["full_ssa"]),
+        # also the run-time hypotheses of C05_pipeline_valid: fresh processor, no KeyError flagged, one node left
+        J.model("simplify + greedy + optimize_remaining_by_size: ssa_path, ok flag, one node left, fresh start",
+                "let c0 := %s in let c := cp_remaining (cp_greedy (cp_simplify %s c0)) in "
+                "(cp_path c, (cp_ok c, (length (cp_nodes c), (map fst (cp_nodes c0), cp_ssa c0))))" % (cp, ords),
+                "(%s, (true, (1, (seq 0 %d, %d))))" % (path_lit(o["full_ssa"]), n, n),
                 dict(rec, impl=o["full_ssa"], orders=o["orders"]))
         if o["public_greedy_ssa"] != o["full_ssa"]:
             ctx.fail("optimize_greedy(use_ssa=True) differs from the processor passes it is made of",
@@ -1126,15 +1129,9 @@ def judge_builder(ctx, J, what, rec, net, o, confirm):
         # the whole loop, replayed with the recorded partition of each round
         mt = "[" + "; ".join("(%s, %s)" % (coq([list(x) for x in sp["xs"]]), coq(list(sp["blocks"])))
                              for sp in o["seps"]) + "]"
-        # a run that RETURNED although some round merged nothing can only come from the repaired loop
-        # (finding 17: the loop as it stands never leaves such a round); it is compared with the
-        # repaired model, every other run with the model of the loop as it stands
+        term = "build_agglom (sub_of_table %s) (memb_of_table %s) %d %d" % (tbl, mt, rec["opts"]["groupsize"], n)
         if any(len(sp["groups"]) >= sp["k"] for sp in o["seps"]):
-            term = "build_agglom_fixed (sub_of_table %s) (memb_of_table %s) %d %d" % (tbl, mt, rec["opts"]["groupsize"], n)
-            ctx.count("agglom_no_progress_round_returned")
-        else:
-            term = "build_agglom (sub_of_table %s) (memb_of_table %s) %d %d %d" % (
-                tbl, mt, rec["opts"]["groupsize"], len(o["seps"]) + 1, n)
+            ctx.count("agglom_no_progress_round_break")
         J.model("build_agglom with the recorded partitions vs the tree built", term, want,
                 dict(rec, impl_nested=o["nested"], seps=o["seps"], subs=o["subs"]))
         ctx.count("agglom_replayed")
